@@ -492,3 +492,21 @@ def g_tr_state(rng, level=0, n_random=120):
     for _ in range(n_random):
         N = int(rng.integers(1, 4))
         yield {'self': _rand_state(rng, N), 'clifford_map': _rand_map(rng, N), 'mask': None}
+
+
+@gen(CI + 'CliffordGate.forward#generator_global_state')
+@gen(CI + 'CliffordGate.backward#generator_global_state')
+def g_gate_gen_state(rng, level=0, n_random=100):
+    for _ in range(n_random):
+        N = int(rng.integers(1, 4))
+        yield {'self': _gate_gen(rng, N), 'obj': _rand_state(rng, N)}
+
+
+@gen(CI + 'CliffordGate.forward#map_global_state')
+def g_gate_map_state(rng, level=0, n_random=100):
+    import pyclifford.circuit as ci
+    for _ in range(n_random):
+        N = int(rng.integers(1, 4))
+        g = ci.CliffordGate(*range(N))
+        g.forward_map = _rand_map(rng, N)
+        yield {'self': g, 'obj': _rand_state(rng, N)}
